@@ -28,12 +28,18 @@ class Ty(T.NamedTuple):
 UNKNOWN = Ty('unknown')
 
 
+_ANN_CACHE: T.Dict[str, T.Optional[ast.AST]] = {}
+
+
 def ann_node(a: T.Optional[ast.AST]) -> T.Optional[ast.AST]:
     if isinstance(a, ast.Constant) and isinstance(a.value, str):
-        try:
-            return ast.parse(a.value, mode='eval').body
-        except SyntaxError:
-            return None
+        v = a.value
+        if v not in _ANN_CACHE:
+            try:
+                _ANN_CACHE[v] = ast.parse(v, mode='eval').body
+            except SyntaxError:
+                _ANN_CACHE[v] = None
+        return _ANN_CACHE[v]
     return a
 
 
@@ -57,6 +63,15 @@ def sub_args(n: T.Optional[ast.AST]) -> T.List[ast.AST]:
 
 
 def star_imports(mod: Module) -> T.List[str]:
+    cached = getattr(mod, '_c06_star', None)
+    if cached is not None:
+        return cached   # type: ignore[no-any-return]
+    out = _star_imports(mod)
+    mod._c06_star = out   # type: ignore[attr-defined]
+    return out
+
+
+def _star_imports(mod: Module) -> T.List[str]:
     out = []
     pkg = mod.rel[:-3].replace('/', '.').split('.')
     base = pkg[:-1] if pkg[-1] != '__init__' else pkg[:-1]
@@ -81,6 +96,44 @@ def _has_annassign(mod: Module, name: str) -> bool:
     return False
 
 
+def _stmts(body: T.List[ast.stmt]) -> T.Iterator[ast.stmt]:
+    """All statements, descending statement bodies only (imports are statements)."""
+    stack = list(reversed(body))
+    while stack:
+        st = stack.pop()
+        yield st
+        for field in ('body', 'orelse', 'finalbody'):
+            sub = getattr(st, field, None)
+            if isinstance(sub, list):
+                stack.extend(reversed(sub))
+        for h in getattr(st, 'handlers', ()):
+            stack.extend(reversed(h.body))
+
+
+def fast_imports(mod: Module) -> T.Dict[str, str]:
+    """Same table as Module.imports() (local name -> dotted origin), without walking expressions."""
+    out: T.Dict[str, str] = {}
+    pkg = mod.rel[:-3].replace('/', '.').split('.')
+    base = pkg[:-1]
+    stars: T.List[str] = []
+    for st in _stmts(mod.tree.body):
+        if isinstance(st, ast.Import):
+            for a in st.names:
+                out[a.asname or a.name.split('.')[0]] = a.name if a.asname else a.name.split('.')[0]
+        elif isinstance(st, ast.ImportFrom):
+            if st.level:
+                b = base[:len(base) - (st.level - 1)]
+                m = '.'.join(b + ([st.module] if st.module else []))
+            else:
+                m = st.module or ''
+            for a in st.names:
+                if a.name == '*':
+                    stars.append(m)
+                out[a.asname or a.name] = f'{m}.{a.name}'
+    mod._c06_star = stars   # type: ignore[attr-defined]
+    return out
+
+
 def _memoise_imports(repo: Repo) -> None:
     """Engine work-around: Module.imports() re-walks the whole tree on every call (resolve_class calls it in a loop);
     memoise it per Module instance of *this* Repo object."""
@@ -91,30 +144,88 @@ def _memoise_imports(repo: Repo) -> None:
     def module(rel: str) -> Module:
         m = orig(rel)
         if not getattr(m, '_c06_imps', False):
-            cached = Module.imports(m)
+            cached = fast_imports(m)
             m.imports = lambda c=cached: c   # type: ignore[method-assign]
             m._c06_imps = True               # type: ignore[attr-defined]
         return m
     repo.module = module      # type: ignore[method-assign]
     repo._c06_memo = True     # type: ignore[attr-defined]
+    orig_dotted = repo.module_by_dotted
+
+    def module_by_dotted(dotted: str) -> T.Optional[Module]:
+        allowed = getattr(repo, '_c06_allowed', None)
+        if allowed is not None:
+            rel = dotted.replace('.', '/')
+            if rel + '.py' not in allowed and not repo.exists(rel + '/__init__.py'):
+                return None
+        return orig_dotted(dotted)
+    repo.module_by_dotted = module_by_dotted   # type: ignore[method-assign]
 
 
 class Resolver:
     """Name, class, attribute and callee resolution over a set of indexed modules."""
 
-    def __init__(self, repo: Repo, index_modules: T.Sequence[str]):
+    def __init__(self, repo: Repo, index_modules: T.Sequence[str], closed: bool = True):
+        """closed: classes / functions are resolved only inside the indexed modules (and package __init__ re-exports);
+        anything defined elsewhere stays unresolved (-> information), which keeps the quick tier from parsing the whole package."""
         self.repo = repo
         _memoise_imports(repo)
+        prev = getattr(repo, '_c06_allowed', None)
+        repo._c06_allowed = ((prev or set()) | set(index_modules) | {'mesonbuild/mesonlib.py'}) if closed else None   # type: ignore[attr-defined]
         self.index = [repo.module(m) for m in index_modules if repo.exists(m)]
         self._attr_tables: T.Dict[int, T.Dict[str, Ty]] = {}
+        self.ctor_calls: T.Dict[int, T.Dict[str, str]] = {}
+        self._cls_memo: T.Dict[T.Tuple[str, str], T.Any] = {}
+        self._iter_memo: T.Dict[str, T.Optional[str]] = {}
+        self._glob_memo: T.Dict[T.Tuple[str, str], T.Optional[T.Tuple[Module, str]]] = {}
+        self._gty_memo: T.Dict[T.Tuple[str, str], Ty] = {}
         self._attr_by_name: T.Optional[T.Dict[str, T.List[Ty]]] = None
         self._meth_by_name: T.Optional[T.Dict[str, T.List[T.Tuple[Module, ast.ClassDef, ast.FunctionDef]]]] = None
         self._cls_of_fn: T.Dict[int, T.Tuple[Module, T.Optional[ast.ClassDef]]] = {}
         self.unresolved = 0
         self.resolved = 0
 
+    # -- one traversal per module: nodes owned by each function + parent map ----------
+    def own_nodes(self, mod: Module, fn: ast.AST) -> T.List[ast.AST]:
+        """Nodes of fn's body that are not inside a nested def / lambda / class (the nested definition node itself is listed)."""
+        tab = getattr(mod, '_c06_own', None)
+        if tab is None:
+            tab = {}
+            parents: T.Dict[ast.AST, ast.AST] = {}
+            stack: T.List[T.Tuple[ast.AST, T.Optional[T.List[ast.AST]]]] = [(mod.tree, None)]
+            FD = (ast.FunctionDef, ast.AsyncFunctionDef)
+            while stack:
+                node, lst = stack.pop()
+                if isinstance(node, FD):
+                    # body -> the function's own list; decorators, defaults, annotations -> the enclosing scope (lst)
+                    mine: T.List[ast.AST] = []
+                    tab[id(node)] = mine
+                    body = set(map(id, node.body))
+                    children = [(ch, mine if id(ch) in body else lst) for ch in ast.iter_child_nodes(node)]
+                elif isinstance(node, (ast.Lambda, ast.ClassDef)):
+                    children = [(ch, None) for ch in ast.iter_child_nodes(node)]
+                else:
+                    children = [(ch, lst) for ch in ast.iter_child_nodes(node)]
+                for ch, l2 in children:
+                    parents[ch] = node
+                    if l2 is not None:
+                        l2.append(ch)
+                    stack.append((ch, l2))
+            mod._c06_own = tab          # type: ignore[attr-defined]
+            if mod._parents is None:
+                mod._parents = parents  # same content as Module.parent_map() builds
+        return tab.get(id(fn), [])      # type: ignore[no-any-return]
+
     # -- globals -------------------------------------------------------
     def resolve_global(self, mod: Module, name: str, depth: int = 0) -> T.Optional[T.Tuple[Module, str]]:
+        key = (mod.rel, name)
+        if key in self._glob_memo:
+            return self._glob_memo[key]
+        r = self._resolve_global(mod, name, depth)
+        self._glob_memo[key] = r
+        return r
+
+    def _resolve_global(self, mod: Module, name: str, depth: int = 0) -> T.Optional[T.Tuple[Module, str]]:
         if depth > 8:
             return None
         if defined_in(mod, name):
@@ -142,6 +253,12 @@ class Resolver:
         return None
 
     def global_ty(self, mod: Module, name: str) -> Ty:
+        key = (mod.rel, name)
+        if key not in self._gty_memo:
+            self._gty_memo[key] = self._global_ty(mod, name)
+        return self._gty_memo[key]
+
+    def _global_ty(self, mod: Module, name: str) -> Ty:
         r = self.resolve_global(mod, name)
         if r is None:
             return UNKNOWN
@@ -237,6 +354,26 @@ class Resolver:
         return UNKNOWN
 
     # -- classes -----------------------------------------------------------
+    def resolve_cls(self, mod: Module, dotted: str) -> T.Optional[T.Tuple[Module, ast.ClassDef]]:
+        """Repo.resolve_class plus star imports and re-exporting modules (engine gap: `from x import *` is not followed)."""
+        key = (mod.rel, dotted)
+        if key in self._cls_memo:
+            return self._cls_memo[key]
+        r = self.repo.resolve_class(mod, dotted)
+        if r is None:
+            head, _, tail = dotted.partition('.')
+            m2: T.Optional[Module] = mod
+            name = dotted
+            if tail:
+                m2 = self.module_alias(mod, head)
+                name = tail
+            if m2 is not None and '.' not in name:
+                g = self.resolve_global(m2, name)
+                if g is not None and g[0].has_cls(g[1]):
+                    r = (g[0], g[0].cls(g[1]))
+        self._cls_memo[key] = r
+        return r
+
     def class_by_ann(self, ann: T.Optional[ast.AST], mod: Module) -> T.Optional[T.Tuple[Module, ast.ClassDef]]:
         a = ann_node(ann)
         if a is None:
@@ -254,7 +391,7 @@ class Resolver:
         chain = attr_chain(a)
         if not chain:
             return None
-        return self.repo.resolve_class(mod, chain)
+        return self.resolve_cls(mod, chain)
 
     def attr_table(self, mod: Module, cls: ast.ClassDef) -> T.Dict[str, Ty]:
         key = id(cls)
@@ -272,13 +409,15 @@ class Resolver:
                         ctors.setdefault(t.id, []).append(self.ctor_ty(st.value, mod, f'{where}.{t.id}'))
             elif isinstance(st, (ast.FunctionDef, ast.AsyncFunctionDef)):
                 params = {a.arg: a.annotation for a in st.args.posonlyargs + st.args.args + st.args.kwonlyargs}
-                for n in walk_no_nested(st):
+                for n in (self.own_nodes(mod, st) if getattr(mod, '_c06_own', None) is not None or mod in self.index else walk_no_nested(st)):
                     if isinstance(n, ast.AnnAssign) and isinstance(n.target, ast.Attribute) and attr_chain(n.target.value) == 'self':
                         anns.setdefault(n.target.attr, self.ann_ty(n.annotation, mod, f'{where}.{n.target.attr} annotated {norm(n.annotation)}'))
                     elif isinstance(n, ast.Assign):
                         for t in n.targets:
                             if isinstance(t, ast.Attribute) and attr_chain(t.value) == 'self':
                                 v = n.value
+                                if isinstance(v, ast.Call) and attr_chain(v.func):
+                                    self.ctor_calls.setdefault(key, {}).setdefault(t.attr, attr_chain(v.func) or '')
                                 ty = self.ctor_ty(v, mod, f'{where}.{t.attr}')
                                 if ty.kind == 'unknown' and isinstance(v, ast.Name) and params.get(v.id) is not None:
                                     ty = self.ann_ty(params[v.id], mod, f'{where}.{t.attr} = parameter {v.id}: {norm(params[v.id])}')
@@ -313,6 +452,41 @@ class Resolver:
                         tab.setdefault(a, []).append(t)
             self._attr_by_name = tab
         return self._attr_by_name.get(attr, [])
+
+    def attr_iterated(self, attr: str) -> T.Optional[str]:
+        """Is a container attribute `.attr` iterated / serialised anywhere in the indexed modules?  (A keyed insertion into a dict
+        is order-relevant only if the dict is iterated later - DESIGN B.5.)  Returns a location text or None."""
+        if attr in self._iter_memo:
+            return self._iter_memo[attr]
+        import re
+        pat = re.compile(r'\.' + re.escape(attr) + r'\b')
+        hit: T.Optional[str] = None
+        for m in self.index:
+            if not pat.search(m.src):      # cheap pre-filter only; the decision is made on the AST below
+                continue
+            for n in ast.walk(m.tree):
+                it: T.Optional[ast.AST] = None
+                if isinstance(n, (ast.For, ast.AsyncFor, ast.comprehension)):
+                    it = n.iter
+                elif isinstance(n, ast.Call) and isinstance(n.func, ast.Name) and n.func.id in ('list', 'tuple', 'sorted', 'iter', 'enumerate', 'zip') and n.args:
+                    it = n.args[0]
+                elif isinstance(n, ast.Call) and isinstance(n.func, ast.Attribute) and n.func.attr in ('join', 'extend', 'update', 'dump', 'dumps') and n.args:
+                    it = n.args[-1] if n.func.attr in ('join', 'extend', 'update') else n.args[0]
+                elif isinstance(n, ast.Return) and n.value is not None:
+                    it = n.value        # handed out: callers may iterate it
+                elif isinstance(n, ast.Starred):
+                    it = n.value
+                if it is None:
+                    continue
+                if isinstance(it, ast.Call) and isinstance(it.func, ast.Attribute) and it.func.attr in ('items', 'keys', 'values', 'copy'):
+                    it = it.func.value
+                if isinstance(it, ast.Attribute) and it.attr == attr:
+                    hit = f'{m.rel}:{getattr(n, "lineno", getattr(it, "lineno", 0))}'
+                    break
+            if hit:
+                break
+        self._iter_memo[attr] = hit
+        return hit
 
     def methods_by_name(self, name: str) -> T.List[T.Tuple[Module, ast.ClassDef, ast.FunctionDef]]:
         if self._meth_by_name is None:
